@@ -1436,6 +1436,86 @@ def check_fresh_container_assignment(rep):
                         rep.fail('derived-container-refused', 'a %s container of the derived type %s was refused via %s' % (state, wname, api), case)
 
 
+def check_class_blind_assignment(rep):
+    """a value object whose type has constraints of the same shape and operands as the field's, but of another class
+    (INTEGER (-3..4) for a field INTEGER (-3 | 4); ALL EXCEPT c / c | c for c), holding a value the field rejects, must be
+    refused by every container and API, with and without strictConstraints ('==' on constraint objects ignores the class;
+    fixed in /repo 5ea3865, 9c46fea)"""
+    I = univ.Integer
+    pairs = [
+        ('sv-vs-vr', I().subtype(subtypeSpec=C.SingleValueConstraint(-3, 4)), I().subtype(subtypeSpec=C.ValueRangeConstraint(-3, 4)), 0),
+        ('sv-vs-vr-bare', I(subtypeSpec=C.SingleValueConstraint(-3, 4)), I(subtypeSpec=C.ValueRangeConstraint(-3, 4)), 1),
+        ('sv-vs-vr-nested', I().subtype(subtypeSpec=C.ConstraintsIntersection(C.ValueRangeConstraint(-10, 10), C.SingleValueConstraint(1, 5))),
+         I().subtype(subtypeSpec=C.ConstraintsIntersection(C.ValueRangeConstraint(-10, 10), C.ValueRangeConstraint(1, 5))), 3),
+        ('ex-vs-and', I().subtype(subtypeSpec=C.ConstraintsExclusion(C.ValueRangeConstraint(0, 5))),
+         I().subtype(subtypeSpec=C.ConstraintsIntersection(C.ValueRangeConstraint(0, 5))), 3),
+        ('ex-vs-or', I().subtype(subtypeSpec=C.ConstraintsExclusion(C.ValueRangeConstraint(0, 5))),
+         I().subtype(subtypeSpec=C.ConstraintsUnion(C.ValueRangeConstraint(0, 5))), 3),
+        ('size-sv-vs-vs', univ.OctetString().subtype(subtypeSpec=C.ValueSizeConstraint(1, 3)),
+         univ.OctetString().subtype(subtypeSpec=C.ValueSizeConstraint(1, 30)), b'abcdefgh'),
+    ]
+    nt = namedtype.NamedType
+    for pname, F, V, v in pairs:
+        try:
+            F.clone(v)
+            rep.fail('harness:class-blind', 'the field type of %s admits %r' % (pname, v), {'kind': 'class-blind', 'pair': pname})
+            continue
+        except error.PyAsn1Error:
+            pass
+        vobj = V.clone(v)
+        for strict in (False, True):
+            holders = [('seq', univ.Sequence(componentType=namedtype.NamedTypes(nt('n', univ.Null()), nt('x', F))), 'name'),
+                       ('set', univ.Set(componentType=namedtype.NamedTypes(nt('n', univ.Null()), nt('x', F))), 'name'),
+                       ('choice', univ.Choice(componentType=namedtype.NamedTypes(nt('n', univ.Null()), nt('x', F))), 'name'),
+                       ('seqof', univ.SequenceOf(componentType=F), 'pos'), ('setof', univ.SetOf(componentType=F), 'pos')]
+            for hname, holder, how in holders:
+                for api in (['byname', 'setitem', 'bypos'] if how == 'name' else ['bypos', 'append', 'setitem0']):
+                    rep.evaluations += 1
+                    rep.count('class-blind-assignments')
+                    case = {'kind': 'class-blind', 'pair': pname, 'holder': hname, 'api': api, 'strict': strict, 'value': repr(v)}
+                    h = holder.clone()
+                    h.strictConstraints = strict
+                    try:
+                        if api == 'byname':
+                            h.setComponentByName('x', vobj)
+                        elif api == 'setitem':
+                            h['x'] = vobj
+                        elif api == 'append':
+                            h.append(vobj)
+                        elif api == 'setitem0':
+                            h[0] = vobj
+                        else:
+                            h.setComponentByPosition(1 if how == 'name' else 0, vobj)
+                    except (error.PyAsn1Error, KeyError, IndexError):
+                        continue
+                    except Exception as ex:  # noqa
+                        rep.fail('class-blind-leak-' + type(ex).__name__, '%s via %s raised %s' % (hname, api, ex), case)
+                        continue
+                    if pname == 'size-sv-vs-vs':
+                        continue        # control: another SIZE range is not "same operands"; whatever happens is judged elsewhere
+                    rep.fail('assignment-bypasses-constraint:other-class:%s' % pname,
+                             'a value object of a type with equal operands under another constraint class, holding %r, was stored '
+                             'via %s (strictConstraints=%s) where the field type rejects that value' % (v, api, strict), case)
+        # control: the field's own type and a type with an equal constraint set are accepted in both modes
+        for strict in (False, True):
+            good = F.clone([x for x in (-3, 4, 1, 5, 7, b'ab') if _admits(F, x)][0])
+            h = univ.SequenceOf(componentType=F)
+            h.strictConstraints = strict
+            try:
+                h.append(good)
+            except Exception as ex:  # noqa
+                rep.fail('same-type-refused:%s' % pname, 'a value object of the field\'s own type was refused (strict=%s): %s' % (strict, ex),
+                         {'kind': 'class-blind', 'pair': pname, 'strict': strict})
+
+
+def _admits(ty, x):
+    try:
+        ty.clone(x)
+        return True
+    except Exception:  # noqa
+        return False
+
+
 def check_huge(rep):
     """values the interpreter refuses to print (more than 4300 decimal digits): a violation is still refused, an admitted
     value still accepted, on every construction path"""
@@ -1446,6 +1526,10 @@ def check_huge(rep):
         ('INTEGER (0..MAX)', univ.Integer().subtype(subtypeSpec=C.ValueRangeConstraint(0, big * 4)), [(big, True), (-big, False), (big * 8, False)]),
         ('INTEGER (ALL EXCEPT 5)', univ.Integer().subtype(subtypeSpec=C.ConstraintsExclusion(C.SingleValueConstraint(5))),
          [(big, True), (5, False)]),
+        ('INTEGER (0..5 | 9)', univ.Integer().subtype(subtypeSpec=C.ConstraintsUnion(C.ValueRangeConstraint(0, 5), C.SingleValueConstraint(9))),
+         [(big, False), (-big, False), (9, True)]),
+        ('INTEGER (0..5 | 9) nested', univ.Integer().subtype(subtypeSpec=C.ConstraintsIntersection(C.ConstraintsUnion(C.ValueRangeConstraint(0, 5),
+          C.ConstraintsUnion(C.SingleValueConstraint(9))), C.ValueRangeConstraint(-1, 100))), [(big, False), (3, True)]),
         ('BIT STRING (SIZE 1..64)', univ.BitString().subtype(subtypeSpec=C.ValueSizeConstraint(1, 64)),
          [(univ.BitString(binValue='10' * 10000), False), (univ.BitString(binValue='10' * 32), True)]),
     ]
@@ -1493,6 +1577,7 @@ def run(rep, tier, seed):
     known_finding_probes(rep)
     check_huge(rep)
     check_fresh_container_assignment(rep)
+    check_class_blind_assignment(rep)
     op_constr(rep, drv, rng, 10000 * k, 12)
     op_chain(rep, drv, rng, 1500 * k)
     op_super_pairs(rep, drv, rng, 3000 * k)
